@@ -2,6 +2,7 @@ package sim
 
 import (
 	"fmt"
+	"github.com/ory/keto/ketoapi"
 	"math"
 	"sort"
 	"strings"
@@ -85,7 +86,17 @@ func runC15(env *Env, rc *RunCtx) {
 		return
 	}
 	bound := int(B)
-	q, class, _, err := env.PrepCase(c, Limits{Depth: depth, Width: width})
+	// one case in five goes through BatchCheck: the same tuple 2-10 times, more
+	// entries than workers in most of them (cancellation has to stop the feeding of
+	// the workers as well as the workers)
+	batchN, batchPar := 0, 5
+	if t.Bool(1, 5) {
+		batchN = []int{2, 6, 7, 10}[t.Choose(4)]
+		batchPar = []int{1, 2, 5}[t.Choose(3)]
+		bound *= batchN
+		rc.Count("probe_batch_entry_point", 1)
+	}
+	q, class, _, err := env.PrepCase(c, Limits{Depth: depth, Width: width, BatchMax: 10, BatchPar: batchPar})
 	if err != nil {
 		env.T.Fatalf("harness: %v", err)
 	}
@@ -101,7 +112,17 @@ func runC15(env *Env, rc *RunCtx) {
 		rc.Count("probe_wider_than_limit", 1)
 	}
 	reqDepth := 0
-	mk := func() []*Request { return []*Request{{Kind: "check", Tuple: q, Depth: reqDepth}} }
+	apiQ := c.Query.API()
+	mk := func() []*Request {
+		if batchN > 0 {
+			var b []*ketoapi.RelationTuple
+			for i := 0; i < batchN; i++ {
+				b = append(b, apiQ)
+			}
+			return []*Request{{Kind: "batch", Batch: b, Depth: reqDepth}}
+		}
+		return []*Request{{Kind: "check", Tuple: q, Depth: reqDepth}}
+	}
 	desc := func(extra map[string]any) map[string]any {
 		d := c.Describe()
 		d["limits"] = map[string]any{"max_read_depth": depth, "max_read_width": width, "storage_call_bound": bound}
@@ -231,7 +252,7 @@ func runC15(env *Env, rc *RunCtx) {
 		if !ok {
 			continue
 		}
-		if r.CancelledAt >= 0 && len(r.Outs) == 1 {
+		if r.CancelledAt >= 0 && len(r.Outs) == 1 && batchN == 0 {
 			if !r.PromptReturn {
 				rc.Violate("cancel-not-prompt", "cancel", fmt.Sprintf("after cancellation (after call %d) the check needed %d more storage calls to return", j, r.ReleasedAfter),
 					desc(map[string]any{"schedule": r.Trace, "cancel_after_call": j}), e, et)
